@@ -110,6 +110,12 @@ Definition h_bind (cfg : Params) (s : State) (svc prov : Z) (dep : Coins)
       Ok (set_own_prov s5 (ladd (owner, prov) (own_prov s5)))
   end.
 
+(* validateDeposit, then binding.Deposit.Add(deposit...): sdk.Int.Add panics ("Int overflow")
+   when the sum does not fit 255 bits (known finding K6) *)
+Definition add_deposit_amt (cur : Z) (dep : Coins) : Res Z :=
+  a <- one_base_coin dep ;;
+  if cur + a <? INT_LIMIT then Ok a else Panic.
+
 Definition h_update (cfg : Params) (s : State) (svc prov : Z) (dep : Coins)
     (pr : option (option RawPricing)) (qos owner : Z) (ok : bool) : Res State :=
   check ok ;;
@@ -117,7 +123,7 @@ Definition h_update (cfg : Params) (s : State) (svc prov : Z) (dep : Coins)
   check (b_owner b =? owner) ;;
   check ((qos =? 0) || (qos <=? p_max_timeout cfg)) ;;
   let b1 := if qos =? 0 then b else setb_qos b qos in
-  amt <- (if coins_empty dep then Ok 0 else one_base_coin dep) ;;
+  amt <- (if coins_empty dep then Ok 0 else add_deposit_amt (b_deposit b1) dep) ;;
   let b2 := setb_deposit b1 (b_deposit b1 + amt) in
   newp <- (match pr with
            | None => Ok None
@@ -157,7 +163,7 @@ Definition h_enable (cfg : Params) (s : State) (svc prov : Z) (dep : Coins)
   b <- of_opt (get (svc, prov) (binds s)) ;;
   check (b_owner b =? owner) ;;
   check negb (b_avail b) ;;
-  amt <- (if coins_empty dep then Ok 0 else one_base_coin dep) ;;
+  amt <- (if coins_empty dep then Ok 0 else add_deposit_amt (b_deposit b) dep) ;;
   let b1 := setb_deposit b (b_deposit b + amt) in
   md <- min_deposit cfg (pricing_of s (svc, prov)) ;;
   check (md <=? b_deposit b1) ;;
@@ -176,8 +182,22 @@ Definition h_refund_deposit (cfg : Params) (s : State) (svc prov owner : Z) (ok 
   Ok (emit (EvDepositOut (svc, prov) (b_owner b) (b_deposit b))
         (put_binding s1 (svc, prov) (setb_deposit b 0))).
 
+(* Address atoms 9001..9004 stand for module accounts the bank keeper blocks as receivers
+   (service request account, service deposit account, fee collector, one foreign module account):
+   bankKeeper.BlockedAddr. acct_of resolves an arbitrary address to the account it denotes. *)
+Definition ESCROW_ADDR : Z := 9001.
+Definition DEPOSIT_ADDR : Z := 9002.
+Definition FEECOLL_ADDR : Z := 9003.
+Definition is_blocked (a : Z) : bool := (9001 <=? a) && (a <=? 9004).
+Definition acct_of (a : Z) : Acct :=
+  if a =? ESCROW_ADDR then Escrow
+  else if a =? DEPOSIT_ADDR then Deposit
+  else if a =? FEECOLL_ADDR then FeeColl
+  else User a.
+
 Definition h_set_withdraw (s : State) (owner addr : Z) (ok : bool) : Res State :=
   check ok ;;
+  check negb (is_blocked addr) ;;
   Ok (set_wdaddr s (set owner addr (wdaddr s))).
 
 (* ------------------------------------------------------------------ *)
@@ -484,11 +504,12 @@ Definition h_withdraw (s : State) (owner prov : Z) (ok : bool) : Res State :=
          || match get prov (owner_of s) with Some o => o =? owner | None => false end) ;;
   let oe := get0 owner (own_earned s) in
   let dest := match get owner (wdaddr s) with Some a => a | None => owner end in
+  let dacct := match get owner (wdaddr s) with Some a => acct_of a | None => User owner end in
   if prov =? 0 then
     let provs := map snd (filter (fun op => fst op =? owner) (own_prov s)) in
     let s1 := set_earned s (fold_left (fun m p => del p m) provs (earned s)) in
     let s2 := set_own_earned s1 (del owner (own_earned s1)) in
-    s3 <- of_opt (transfer Escrow (User dest) oe s2) ;;
+    s3 <- of_opt (transfer Escrow dacct oe s2) ;;
     Ok (emit (EvWithdraw owner dest oe) s3)
   else
     let e := get0 prov (earned s) in
@@ -496,7 +517,7 @@ Definition h_withdraw (s : State) (owner prov : Z) (ok : bool) : Res State :=
     s2 <- (if e =? oe then Ok (set_own_earned s1 (del owner (own_earned s1)))
            else if oe - e <? 0 then Panic
            else Ok (set_own_earned s1 (set owner (oe - e) (own_earned s1)))) ;;
-    s3 <- of_opt (transfer Escrow (User dest) e s2) ;;
+    s3 <- of_opt (transfer Escrow dacct e s2) ;;
     Ok (emit (EvWithdraw owner dest e) s3).
 
 Definition h_transfer (s : State) (from to amt : Z) : Res State :=
